@@ -335,10 +335,11 @@ def mutate(ctx, name, o, y):
         o.values["id"] = "changed"
         o.values["symx"] = "new"
     elif name == "path[i].end.x=":
-        o[1].end.x = y()
+        # (an earlier mutation of the same history may have shortened the path: use the last segment then)
+        o[min(1, len(o) - 1)].end.x = y()
         o[0].end.y = y()
     elif name == "path[i]*=M":
-        o[1] *= y.matrix(S)
+        o[min(1, len(o) - 1)] *= y.matrix(S)
     elif name == "del path[-1]":
         del o[-1]
     elif name == "path.append":
@@ -347,9 +348,12 @@ def mutate(ctx, name, o, y):
         o += "l 1,1 2,2"
     elif name == "path.reverse":
         o.reverse()
-        o[1].end.x = y()
+        o[min(1, len(o) - 1)].end.x = y()
     elif name == "path[1]=seg":
-        o[1] = S.Line(None, (y(), y()))
+        if len(o) > 1:
+            o[1] = S.Line(None, (y(), y()))
+        else:
+            o.append(S.Line(None, (y(), y())))
     elif name == "points[0].x=":
         o.points[0].x = y()
     elif name == "points[0]*=M":
